@@ -37,10 +37,6 @@ abbrev PRes := Option (Expr × Toks)
 @[match_pattern] def P (x : Punct) (g : Bool) : LTok := ⟨.p x, g⟩
 @[match_pattern] def K (k : Kw) (g : Bool) : LTok := ⟨.kw k, g⟩
 
-def Kw.isOpName : Kw → Bool
-  | .or | .and | .div | .mod => true
-  | _ => false
-
 def Kw.isNodeType : Kw → Bool
   | .node | .text | .comment | .pi => true
   | _ => false
